@@ -165,7 +165,8 @@ def gen_case(rng):
                    and r.get('value') is not None]
             for r, t in zip(sel, sorted(r['time'] for r in sel)):
                 r['time'] = t
-    case = {'rows': flat, 'n_out': n_out, 'dosing': dosing, 'hier': hier, 'n_cov': n_cov,
+    pkpd = dosing and n_out == 1 and rng.random() < 0.2
+    case = {'pkpd': pkpd, 'rows': flat, 'n_out': n_out, 'dosing': dosing, 'hier': hier, 'n_cov': n_cov,
             'id_dtype': 'str' if isinstance(ids[0], str) else rng.choice(['int', 'int', 'str', 'object']),
             'reverse_dict': rng.random() < 0.5, 'custom_keys': rng.random() < 0.3,
             'dur_column': dosing and rng.random() < 0.7,
@@ -217,6 +218,14 @@ def models(case):
     import chi
     from harness.toy import PolyToyModel
     n_par = 2
+    if case.get('pkpd'):
+        # the library one-compartment PK model behind the solver substitute (direct administration)
+        from harness import simsub
+        simsub.install()
+        import chi.library
+        mech = chi.library.ModelLibrary().one_compartment_pk_model()
+        mech.set_administration('central', direct=True)
+        return mech, [chi.GaussianErrorModel()]
     mech = (dosed_toy() if case['dosing'] else PolyToyModel)(n_parameters=n_par, n_outputs=case['n_out'])
     ems = [chi.GaussianErrorModel(), chi.ConstantAndMultiplicativeGaussianErrorModel()][:case['n_out']]
     return mech, ems
@@ -259,7 +268,7 @@ def controller(case, df, keys):
     omap, observables = maps(case, mech)
     fixed = {}
     if case['fix'] and not case['hier']:
-        fixed = {'p1': 0.75}
+        fixed = {mech.parameters()[1]: 0.75}
         problem.fix_parameters(fixed)
     cov_map = None
     if case['hier']:
@@ -320,8 +329,9 @@ def hand_posterior(case, problem, routing):
     import myokit
     mech, ems = models(case)
     if case['fix'] and not case['hier']:
+        name = mech.parameters()[1]
         mech = chi.ReducedMechanisticModel(mech)
-        mech.fix_parameters({'p1': 0.75})
+        mech.fix_parameters({name: 0.75})
     if case['n_out'] > 1:
         for o, em in zip(mech.outputs(), ems):
             em.set_parameter_names([o + ' ' + n for n in em.get_parameter_names()])
@@ -511,6 +521,7 @@ def run(ck):
         ck.count('individuals=%d' % len(seen))
         ck.count('hierarchical' if case['hier'] else 'individual posteriors')
         ck.count('dosing' if case['dosing'] else 'no dosing')
+        ck.count('library PK model behind the solver substitute' if case.get('pkpd') else 'closed-form mechanistic model')
         ck.count('outputs=%d covariates=%d' % (case['n_out'], case['n_cov']))
         ck.count('id dtype=%s' % case['id_dtype'])
         order = [s['id'] for s in seen]
